@@ -5,6 +5,7 @@ package main
 
 import (
 	"fmt"
+	"sort"
 	"strconv"
 	"strings"
 
@@ -623,8 +624,12 @@ func sigOf(out string) string {
 // bigBranchPosition: a 7x7 or 8x8 middle-game board on which the mover owns several tall stacks, so that the
 // pseudo-legal move list is long (several hundred slides): move buffers, sorting and the frame arrays are stressed.
 func bigBranchPosition(r *RNG) *tak.Position {
+	return bigBranchSized(r, 7+r.Intn(2), 1+r.Intn(4))
+}
+
+// bigBranchSized: the same on a given size with a given number of tall stacks (more stacks, more moves)
+func bigBranchSized(r *RNG, size, nst int) *tak.Position {
 	for tries := 0; tries < 50; tries++ {
-		size := 7 + r.Intn(2)
 		board := make([][]tak.Square, size)
 		for y := range board {
 			board[y] = make([]tak.Square, size)
@@ -636,9 +641,9 @@ func bigBranchPosition(r *RNG) *tak.Position {
 			ply++
 		}
 		spots := [][2]int{{0, 0}, {size - 1, 0}, {0, size - 1}, {size - 1, size - 1}, {size / 2, size / 2}, {0, size / 2}, {size / 2, 0}}
-		nst := 1 + r.Intn(4)
 		caps := 0
-		for k := 0; k < nst; k++ {
+		placed := 0
+		for k := 0; k < 4*nst && placed < nst; k++ {
 			sp := spots[r.Intn(len(spots))]
 			if board[sp[1]][sp[0]] != nil {
 				continue
@@ -655,6 +660,7 @@ func bigBranchPosition(r *RNG) *tak.Position {
 				sq[j] = tak.MakePiece([]tak.Color{tak.White, tak.Black}[r.Intn(2)], tak.Flat)
 			}
 			board[sp[1]][sp[0]] = sq
+			placed++
 		}
 		// a few single pieces of both colours elsewhere
 		for k := 0; k < r.Intn(8); k++ {
@@ -746,6 +752,42 @@ func genC04ab(c *Ctx) {
 			kind := kinds[r.Intn(len(kinds))]
 			out := c.Emit("c04s " + kind + " A " + encPos(p))
 			c.Count("stale.out=" + strings.Fields(out + " x")[0])
+		}
+	}
+	// one engine reused across 3-5 big-branching positions of one size (7x7/8x8, a few hundred to ~2000 generated
+	// moves, in increasing or in random order of move count): the per-frame move and sort buffers are reused
+	// across searches and have to follow the largest list seen; sorting on, depth 2, table on and off
+	n = c.Scale(16, 800)
+	for k := 0; k < n; k++ {
+		size := 7 + r.Intn(2)
+		s := latticeCfg(c, size)
+		s.sort = true
+		s.depth = 2
+		s.me = 0
+		s.ev = []string{"def", "m"}[r.Intn(2)]
+		if r.Chance(1, 2) {
+			s.tbl = -1
+		}
+		var ps []*tak.Position
+		want := 3 + r.Intn(3)
+		for len(ps) < want {
+			if p := bigBranchSized(r, size, 1+len(ps)%4+r.Intn(2)); p != nil && len(p.AllMoves(nil)) <= 2200 {
+				ps = append(ps, p)
+			}
+		}
+		if r.Chance(2, 3) {
+			sort.Slice(ps, func(i, j int) bool { return len(ps[i].AllMoves(nil)) < len(ps[j].AllMoves(nil)) })
+			c.Count("bigsession.increasing")
+		} else {
+			c.Count("bigsession.random-order")
+		}
+		c.Emit(fmt.Sprintf("case C04big-%d-%d", c.Shard, k))
+		c.Emit("eng A " + s.tok())
+		for _, p := range ps {
+			c.Count(fmt.Sprintf("bigsession.moves~%d", len(p.AllMoves(nil))/250*250))
+			kind := []string{"gm", "an"}[r.Intn(2)]
+			out := c.Emit("c04s " + kind + " A " + encPos(p))
+			c.Count("bigsession.out=" + strings.Fields(out + " x")[0])
 		}
 	}
 }
